@@ -26,11 +26,11 @@ ASSUMPTIONS = [
     "times given as an integer or as a full {min,max} pair; min-only / max-only spellings are not asserted (defaults are not part of the statement)",
     "operand-level times is judged by the metamorphic relation only",
 ]
-KINDS = ["item", "item-ops", "$and", "$or", "$not", "$and_any_order", "nested-times", "nested-times"]
+KINDS = ["item", "item-ops", "$and", "$or", "$not", "$and_any_order", "nested-times", "nested-times", "capture-ref"]
 SHAPES = ["sandwich", "sandwich", "sandwich", "free", "meta", "meta"]
 FLOORS = {"shape=sandwich": 0.3, "shape=meta": 0.2, "edge=min": 0.05, "edge=max": 0.05, "edge=max+1": 0.04, "edge=min-1": 0.03, "rel=macro-plain-use": 0.015}
 for _k in KINDS:
-    FLOORS[f"kind={_k}"] = 0.06
+    FLOORS[f"kind={_k}"] = 0.04
 
 
 def budget(tier):
@@ -81,6 +81,10 @@ def build_x(draw, kind, full=(False, False)):
             s = describe_operand(draw, b[2][0], full[1])
             node = {node: [s if s is not None else "a"]}
         return node, [[b]]
+    if kind == "capture-ref":
+        # the repeated item is a REFERENCE to an instruction capture defined just before it (no definition inside the repetition):
+        # [A, &c, &c{t}, B] on A X X^r B
+        return "&yc", [[fresh(draw)]]
     if kind == "nested-times":
         # a repeated group whose single child is itself repeated: the bounds do not multiply into one quantifier
         # ($and[nop times 2] times {1,2} is 2 or 4 nops, never 3)
@@ -202,12 +206,19 @@ def cases(draw):
             L[k_b] = [L[k_b][0], Bx[0], Bx[1], Bx[2]]
             dB = Bx[0] if not Bx[2] or draw(st.booleans()) else describe_inst(draw, ("0", Bx[0], Bx[2]), (True, full[1]))
             ext = ext + "+overlapping-next" if ext != "none" else "overlapping-next"
+    if kind == "capture-ref":
+        x_ = inst_alts[0][0]
+        L = _mk_listing(draw, pre + [A, x_] + body + [B] + post)
+        shape = "sandwich"
+        pattern = [dA, "&yc", {"&yc": {"times": t}}, dB]
+        assume(_names_ok([dA, dB]))
+        return {"shape": shape, "kind": kind, "listing": L, "pattern": pattern, "edge": edge, "times": t, "r": r, "flags": list(full), "ext": "none"}
     if shape == "sandwich":
         pattern = [dA, attach(node, t, spelling), dB]
         assume(_names_ok(pattern))
         return {"shape": shape, "kind": kind, "listing": L, "pattern": pattern, "edge": edge, "times": t, "r": r, "flags": list(full), "ext": ext}
     # meta
-    rel = draw(st.sampled_from(["unroll", "unroll", "range-eq-int", "spelling", "operand-deref", "operand-or", "operand-not", "macro-plain-use", "macro-plain-use", "macro-plain-use"]))
+    rel = draw(st.sampled_from(["unroll", "unroll", "range-eq-int", "spelling", "operand-deref", "operand-or", "operand-not", "operand-capture-ref", "macro-plain-use", "macro-plain-use", "macro-plain-use"]))
     n_ = draw(st.integers(0, 4))
     macros = None
     if rel == "macro-plain-use" and (kind not in ("item", "item-ops", "$or", "$and") or not usable):
@@ -245,6 +256,9 @@ def cases(draw):
             comp = parse_norm_mem(norm)
             keymap = {"a": "main_reg", "b": "register_multiplier", "c": "constant_multiplier", "k": "constant_offset"}
             opnode = {"$deref": {keymap[k]: v for k, v in comp.items()}}
+        elif rel == "operand-capture-ref":
+            att, norm = draw(st.sampled_from([("%rax", "%rax"), ("$0x10", "0x10"), ("%r8d", "%r8d")]))
+            opnode = None
         elif rel == "operand-not":
             # n consecutive operands none of which is the negated one (half of the time one of them is: both spellings then fail)
             att, norm = draw(st.sampled_from([("%rax", "%rax"), ("$0x10", "0x10"), ("%r8d", "%r8d")]))
@@ -254,12 +268,20 @@ def cases(draw):
             opnode = {"$or": [describe_operand(draw, norm) or "rax", "zz"]}
         cnt = draw(st.integers(max(0, n_ - 1), n_ + 1))
         tail_att, tail_norm = draw(st.sampled_from([("%rcx", "%rcx"), ("$0x1", "0x1")]))
-        inst = ["vfoo", [att] * cnt + [tail_att], [norm] * cnt + [tail_norm]]
-        L = _mk_listing(draw, pre + [A, inst, B] + post)
-        tn = dict(opnode)
-        tn["times"] = n_ if draw(st.booleans()) else {"min": n_, "max": n_}
-        p1 = [dA, {"vfoo": [tn, "c" if tail_norm == "%rcx" else "0x1"]}, dB]
-        p2 = [dA, {"vfoo": [copy.deepcopy(opnode) for _ in range(n_)] + ["c" if tail_norm == "%rcx" else "0x1"]}, dB]
+        tval = n_ if draw(st.booleans()) else {"min": n_, "max": n_}
+        if rel == "operand-capture-ref":
+            # the repeated operand is a later occurrence of an operand capture defined by the first operand
+            inst = ["vfoo", [att] * (cnt + 1) + [tail_att], [norm] * (cnt + 1) + [tail_norm]]
+            L = _mk_listing(draw, pre + [A, inst, B] + post)
+            p1 = [dA, {"vfoo": ["&yo", {"&yo": {"times": tval}}, "c" if tail_norm == "%rcx" else "0x1"]}, dB]
+            p2 = [dA, {"vfoo": ["&yo"] + ["&yo"] * n_ + ["c" if tail_norm == "%rcx" else "0x1"]}, dB]
+        else:
+            inst = ["vfoo", [att] * cnt + [tail_att], [norm] * cnt + [tail_norm]]
+            L = _mk_listing(draw, pre + [A, inst, B] + post)
+            tn = dict(opnode)
+            tn["times"] = tval
+            p1 = [dA, {"vfoo": [tn, "c" if tail_norm == "%rcx" else "0x1"]}, dB]
+            p2 = [dA, {"vfoo": [copy.deepcopy(opnode) for _ in range(n_)] + ["c" if tail_norm == "%rcx" else "0x1"]}, dB]
     assume(_names_ok(p1) and _names_ok(p2))
     out = {"shape": shape, "kind": kind if rel in ("unroll", "range-eq-int") else rel, "rel": rel, "listing": L, "pattern": p1, "pattern2": p2, "edge": "meta", "n": n_, "flags": list(full)}
     if macros:
@@ -275,7 +297,7 @@ def _names_ok(node, operand=False):
             if k in ("$or", "$and", "$and_any_order", "$not"):
                 if not _names_ok(v, operand):
                     return False
-            elif k in ("$deref", "times") or str(k) == "@ytimes_":
+            elif k in ("$deref", "times") or str(k) in ("@ytimes_", "&yo", "&yc"):
                 continue
             else:
                 if not lit_ok(str(k), operand=False):
@@ -283,7 +305,7 @@ def _names_ok(node, operand=False):
                 if isinstance(v, list) and not _names_ok(v, True):
                     return False
         return True
-    if node == "@ytimes_":
+    if node in ("@ytimes_", "&yo", "&yc"):
         return True
     return lit_ok(str(node), operand=operand)
 
